@@ -1,136 +1,118 @@
-(** The RandomGen theorems for fragment F1 ([Frag.frag1]), stated on the
-    interface functions [keys_of] / [decode_key] / [accepts] / [cand_tseq] /
-    [key_accepted] of Random/Enum.v and Random/FragSem.v.  Proof file. *)
+(** The RandomGen theorems for fragment F1 ([Frag.frag1]: no weights), stated on
+    the interface functions [keys_of] / [decode_key] / [accepts] / [cand_tseq] /
+    [key_accepted] of Random/Enum.v and Random/FragSem.v.  F1 is the part of F2
+    ([Frag.frag2], Random/Frag2Thms.v) without weights; there the enumerator is
+    total, so the theorems carry no side condition on the model.  Proof file. *)
 From Coq Require Import ZArith List Bool Arith Lia.
 From SP Require Import Design.Flat Design.Layout Design.Sem Comb.CombModel Comb.CombSpec Random.Enum Random.Frag
-  Random.FragSem Random.RunLemmas Random.Frag0Enum Random.Frag0Decode Random.Frag0Sem Random.Frag0Valid
-  Random.Frag0Keys Random.Frag0Inj Random.Frag0Complete Random.Frag1Cons.
-From SP Require Comb.PermProofs Encode.CodeSem.
+  Random.FragSem Random.RunLemmas Random.FragPerm Random.Frag0Enum Random.Frag0Decode Random.Frag0Keys Random.Frag2Thms.
 Import ListNotations.
 Open Scope nat_scope.
 
-Lemma prodZl_pos l : (forall x, In x l -> (0 < x)%Z) -> (0 < prodZl l)%Z.
+Lemma list_sum_ones {A} (g : A -> nat) l : (forall x, In x l -> g x = 1) -> list_sum (map g l) = length l.
 Proof.
-  unfold prodZl. intros H. assert (G : forall acc, (0 < acc)%Z -> (0 < fold_left Z.mul l acc)%Z).
-  { induction l as [|x t IH]; intros acc Ha; cbn; [exact Ha|]. apply IH.
-    - intros y Hy. apply H. right. exact Hy.
-    - apply Z.mul_pos_pos; [exact Ha | apply H; left; reflexivity]. }
-  apply G. lia.
+  induction l as [|x t IH]; intros H; [reflexivity|]. unfold list_sum in *. cbn [map fold_right length].
+  rewrite (H x (or_introl eq_refl)), IH; [reflexivity|]. intros y Hy. apply H. right. exact Hy.
 Qed.
 
 Section F1T.
 Variable fb : flat.
 Hypothesis HF : frag1 fb = true.
 
-Local Notation Hq := (f0_q_pos fb HF).
-Local Notation en := (f0_enum fb).
-Local Notation n := (length (fl_design fb)).
+Lemma frag1_parts :
+  single_plain_crossing fb = true /\ forallb (constraint_f1 fb) (fl_constraints fb) = true /\
+  exclude_consistent fb = true /\ all_active fb = true /\ all_basic fb = true /\ unit_weights fb = true /\
+  plain_geometry fb = true /\ size_matches1 fb = true /\ free_levels_nonempty fb = true /\
+  (0 <? fl_trials fb) || no_rejecting_constraints fb = true.
+Proof.
+  pose proof HF as H. unfold frag1 in H. repeat (apply andb_prop in H; destruct H as [H ?]). repeat split; assumption.
+Qed.
+
+Lemma frag1_combo_weight c ls : fl_crossings fb = [c] -> combo_weight fb (combine c ls) = 1.
+Proof.
+  intros Ec. destruct frag1_parts as (_ & _ & _ & _ & _ & Hu & _). unfold unit_weights in Hu.
+  apply andb_prop in Hu. destruct Hu as [_ Hu]. rewrite Ec in Hu. cbn [forallb] in Hu. rewrite andb_true_r in Hu.
+  rewrite forallb_forall in Hu.
+  assert (G : forall di : asg, (forall p, In p di -> In (fst p) c) -> combo_weight fb di = 1).
+  { induction di as [|p t IH]; intros H; [reflexivity|]. cbn [combo_weight fold_right]. fold (combo_weight fb t).
+    rewrite IH by (intros x Hx; apply H; right; exact Hx).
+    unfold level_weight_nat. destruct (nth_error (levels_of fb (fst p)) (snd p)) as [lv|] eqn:E; [|reflexivity].
+    specialize (Hu (fst p) (H p (or_introl eq_refl))). rewrite forallb_forall in Hu.
+    specialize (Hu lv (nth_error_In _ _ E)). apply Nat.eqb_eq in Hu. lia. }
+  apply G. intros p Hp. eapply in_combine_fst. exact Hp.
+Qed.
+
+(** F1 is the unweighted part of F2 *)
+Theorem frag1_frag2 : frag2 fb = true.
+Proof.
+  destruct frag1_parts as (H1 & H2 & H3 & H4 & H5 & H6 & H7 & H8 & H9 & H10).
+  unfold frag2. rewrite H1, H2, H3, H4, H5, H7, H9, H10. cbn [andb]. rewrite !andb_true_r.
+  apply andb_true_intro. split.
+  - unfold unit_weights in H6. apply andb_prop in H6. destruct H6 as [H6 _]. unfold weights_ok.
+    destruct (fl_weights fb) as [|[|[|?]] [|? ?]]; try discriminate. reflexivity.
+  - unfold size_matches1 in H8. unfold size_matches2.
+    destruct (fl_crossings fb) as [|c [|? ?]] eqn:Ec; try discriminate.
+    destruct (fl_sizes fb) as [|s0 [|? ?]]; try discriminate.
+    rewrite (list_sum_ones (fun ls => combo_weight fb (combine c ls))); [exact H8|].
+    intros ls _. apply frag1_combo_weight. exact Ec.
+Qed.
+
+Lemma frag1_weight : the_weight fb = 1.
+Proof.
+  destruct frag1_parts as (_ & _ & _ & _ & _ & H6 & _). unfold unit_weights in H6.
+  apply andb_prop in H6. destruct H6 as [H6 _]. unfold the_weight.
+  destruct (fl_weights fb) as [|[|[|?]] [|? ?]]; try discriminate. reflexivity.
+Qed.
+
+Lemma frag1_unw : f0_unw fb = true.
+Proof.
+  unfold f0_unw, p_unw. rewrite (f0_cws_eq fb frag1_frag2). apply forallb_forall. intros x Hx.
+  apply in_map_iff in Hx. destruct Hx as [ls [E _]]. subst x. unfold f0_cw.
+  rewrite frag1_combo_weight by (apply (f0_crossings fb (f0_unpack fb frag1_frag2))). rewrite frag1_weight. reflexivity.
+Qed.
+
+Local Notation H2 := frag1_frag2.
+Local Notation en := (f0_enum fb [] []).
 Local Notation S0 := (code_sem fb).
 
-Lemma f1_keys_of : keys_of fb = if fl_errors_fail fb || (en_count en =? 0)%Z then [] else f0_keys fb.
-Proof. unfold keys_of. rewrite (sample_keys_f0 fb HF Hq). reflexivity. Qed.
+Lemma f1_memos : memos_ok fb [] [].
+Proof. apply (memos_ok_unw fb H2 frag1_unw). Qed.
+
+Lemma f1_make_enumerator : make_enumerator fb = ROk en.
+Proof. apply (f0_make_enumerator_unw fb H2 frag1_unw). Qed.
+
+Lemma f1_enumerates : enumerates fb.
+Proof. apply (f2_enumerates_unw fb H2 frag1_unw). Qed.
 
 Lemma f1_keys_of_ok k : In k (keys_of fb) -> key_ok fb k.
-Proof.
-  rewrite f1_keys_of. destruct (fl_errors_fail fb || (en_count en =? 0)%Z); [intros []|].
-  apply (f0_keys_In fb HF Hq).
-Qed.
+Proof. apply (f2_keys_of_ok fb H2 [] [] f1_memos f1_make_enumerator). Qed.
 
 Lemma f1_decode_key k : key_ok fb k ->
   exists r, decode_key fb k = Some r /\ forall g, row_of_run r g = decoded_row fb k g.
-Proof.
-  intros Hk. destruct (decode_f0 fb HF Hq k Hk) as [r [Hd Hrow]].
-  exists r. split; [|exact Hrow]. unfold decode_key. rewrite (f0_make_enumerator fb HF Hq), Hd. reflexivity.
-Qed.
-
-Lemma tseq_nth (r : run) g : g < n -> nth g (tseq_of_run fb r) [] = row_of_run r g.
-Proof.
-  intros Hg. unfold tseq_of_run.
-  change (fun f : nat => match rlookup r f with Some row => row | None => [] end) with (row_of_run r).
-  rewrite nth_indep with (d' := row_of_run r 0) by (rewrite map_length, seq_length; exact Hg).
-  rewrite map_nth. rewrite seq_nth by exact Hg. reflexivity.
-Qed.
-
-(** the rejection test on the candidate of an in-range key decides validity *)
-Lemma f1_accepts_valid k r : key_ok fb k -> (forall g, row_of_run r g = decoded_row fb k g) ->
-  accepts fb r = valid_b S0 (tseq_of_run fb r).
-Proof.
-  intros Hk Hrow. rewrite (f0_valid_base fb HF Hq k Hk r Hrow).
-  unfold accepts. rewrite (f0_make_enumerator fb HF Hq).
-  destruct (f0_trials fb (f0_unpack fb HF)) as [HT | Hnr].
-  - rewrite (f1_violated fb HF r); [rewrite negb_involutive; reflexivity | | reflexivity].
-    intros g Hg. pose proof (decoded_row_length fb HF Hq k g Hk Hg) as Hl. rewrite <- Hrow in Hl.
-    unfold row_of_run in Hl. destruct (rlookup r g) as [row|]; [exists row; auto | cbn in Hl; lia].
-  - (* no constraint is ever evaluated on a row *)
-    unfold no_rejecting_constraints in Hnr. rewrite forallb_forall in Hnr.
-    assert (Hs : s_constraints S0 = []).
-    { rewrite (f0_sem_constraints fb HF). induction (fl_constraints fb) as [|x t IH]; [reflexivity|].
-      cbn [flat_map]. rewrite IH by (intros y Hy; apply Hnr; right; exact Hy).
-      specialize (Hnr x (or_introl eq_refl)). destruct x; try discriminate; reflexivity. }
-    rewrite Hs. cbn [forallb]. unfold are_constraints_violated.
-    assert (H : (fix go (cs : list fconstraint) : rres bool :=
-                   match cs with
-                   | [] => ROk false
-                   | c :: t => ok <-- constraint_conforms fb r c ;;; if ok then go t else ROk true
-                   end) (fl_constraints fb) = ROk false).
-    { induction (fl_constraints fb) as [|x t IH]; [reflexivity|].
-      pose proof (Hnr x (or_introl eq_refl)) as Hx. destruct x; try discriminate; cbn [constraint_conforms rbind];
-        apply IH; intros y Hy; apply Hnr; right; exact Hy. }
-    rewrite H. cbn [rbind]. cbn [en_base f0_enum eb_has_cc f0_base orb].
-    rewrite (f0_crossings fb (f0_unpack fb HF)). reflexivity.
-Qed.
+Proof. apply (f2_decode_key fb H2 [] [] f1_memos f1_make_enumerator). Qed.
 
 (** C04 on F1 *)
 Theorem f1_accept_sound k cand :
   In k (keys_of fb) -> decode_key fb k = Some cand -> accepts fb cand = true ->
   valid_b S0 (tseq_of_run fb cand) = true.
-Proof.
-  intros Hin Hdec Hacc. pose proof (f1_keys_of_ok k Hin) as Hk.
-  destruct (f1_decode_key k Hk) as [r [Hd Hrow]]. rewrite Hd in Hdec. inversion Hdec; subst cand.
-  rewrite <- (f1_accepts_valid k r Hk Hrow). exact Hacc.
-Qed.
+Proof. apply (f2_accept_sound fb H2). Qed.
 
 (** C05, injectivity on F1 *)
 Theorem f1_cand_inj k1 k2 c1 c2 :
   In k1 (keys_of fb) -> In k2 (keys_of fb) ->
   decode_key fb k1 = Some c1 -> decode_key fb k2 = Some c2 ->
   tseq_of_run fb c1 = tseq_of_run fb c2 -> k1 = k2.
-Proof.
-  intros H1 H2 D1 D2 E. pose proof (f1_keys_of_ok k1 H1) as Hk1. pose proof (f1_keys_of_ok k2 H2) as Hk2.
-  destruct (f1_decode_key k1 Hk1) as [r1 [Hd1 Hr1]]. destruct (f1_decode_key k2 Hk2) as [r2 [Hd2 Hr2]].
-  rewrite Hd1 in D1. rewrite Hd2 in D2. inversion D1; inversion D2; subst c1 c2.
-  apply (f0_decode_inj fb HF Hq k1 k2 Hk1 Hk2). intros g Hg.
-  rewrite <- Hr1, <- Hr2, <- !tseq_nth by exact Hg. rewrite E. reflexivity.
-Qed.
+Proof. apply (f2_cand_inj fb H2). Qed.
 
 Theorem f1_keys_nodup : NoDup (keys_of fb).
-Proof.
-  rewrite f1_keys_of. destruct (fl_errors_fail fb || (en_count en =? 0)%Z); [constructor|].
-  apply (f0_keys_NoDup fb HF Hq).
-Qed.
-
-Lemma f1_count_pos : (0 < en_count en)%Z.
-Proof.
-  cbn [en_count f0_enum]. apply Z.mul_pos_pos.
-  - unfold f0_perms. pose proof (PermProofs.ffact_fact (f0_q fb) (f0_q fb) (le_n _)) as E.
-    rewrite Nat.sub_diag in E. cbn [fact_nat] in E. pose proof (fact_nat_pos (f0_q fb)). lia.
-  - apply prodZl_pos. intros x Hx. unfold f0_inds in Hx. apply in_map_iff in Hx. destruct Hx as [g [E Hg]]. subst x.
-    apply Z.pow_pos_nonneg; [|lia]. apply (ubi_In fb HF Hq) in Hg. destruct Hg as [Hg _].
-    pose proof (f0_nonempty fb (f0_unpack fb HF) g Hg). lia.
-Qed.
-
-Lemma f1_keys_of_full : fl_errors_fail fb = false -> keys_of fb = f0_keys fb.
-Proof.
-  intros He. rewrite f1_keys_of, He. replace (en_count en =? 0)%Z with false; [reflexivity|].
-  symmetry. apply Z.eqb_neq. pose proof f1_count_pos. lia.
-Qed.
+Proof. apply (f2_keys_nodup fb H2). Qed.
 
 (** the number of keys RandomGen draws from is [possible_keys] *)
 Theorem f1_keys_count : fl_errors_fail fb = false ->
   make_enumerator fb = ROk en /\ Z.of_nat (length (keys_of fb)) = possible_keys fb en.
 Proof.
-  intros He. split; [apply (f0_make_enumerator fb HF Hq)|].
-  rewrite (f1_keys_of_full He). apply (f0_keys_length fb HF Hq).
+  intros He. split; [apply f1_make_enumerator|].
+  apply (f2m_keys_count fb H2 [] [] f1_memos f1_make_enumerator He).
 Qed.
 
 (** C05, completeness on F1 *)
@@ -138,65 +120,23 @@ Theorem f1_accept_complete s :
   fl_errors_fail fb = false -> valid_b S0 s = true ->
   exists k cand, In k (keys_of fb) /\ decode_key fb k = Some cand /\ accepts fb cand = true /\
                  tseq_of_run fb cand = s.
-Proof.
-  intros He Hv. pose proof (the_key_ok fb HF Hq s Hv) as Hk.
-  destruct (f1_decode_key _ Hk) as [r [Hd Hrow]].
-  assert (Hs : tseq_of_run fb r = s).
-  { apply (nth_ext _ _ [] []).
-    - unfold tseq_of_run. rewrite map_length, seq_length. symmetry. apply (v_length fb HF Hq s Hv).
-    - intros g Hg. unfold tseq_of_run in Hg. rewrite map_length, seq_length in Hg.
-      rewrite tseq_nth by exact Hg. rewrite Hrow. apply (the_key_rows fb HF Hq s Hv g Hg). }
-  exists (the_key fb s), r. split; [rewrite (f1_keys_of_full He); apply (f0_keys_In fb HF Hq); exact Hk|].
-  split; [exact Hd|]. split; [|exact Hs].
-  rewrite (f1_accepts_valid _ r Hk Hrow), Hs. exact Hv.
-Qed.
+Proof. apply (f2_accept_complete fb H2 s f1_enumerates). Qed.
 
 (** C06 on F1: the valid sequences are exactly the candidates of the accepted
     keys, one key each *)
 Lemma key_accepted_spec k : In k (keys_of fb) ->
   key_accepted fb k = valid_b S0 (cand_tseq fb k).
-Proof.
-  intros Hin. pose proof (f1_keys_of_ok k Hin) as Hk. destruct (f1_decode_key k Hk) as [r [Hd Hrow]].
-  unfold key_accepted, cand_tseq. rewrite Hd. apply (f1_accepts_valid k r Hk Hrow).
-Qed.
+Proof. apply (f2_key_accepted_spec fb H2). Qed.
 
 Theorem f1_accepted_exact :
   fl_errors_fail fb = false ->
   NoDup (map (cand_tseq fb) (accepted_keys fb)) /\
   (forall s, In s (map (cand_tseq fb) (accepted_keys fb)) <-> valid_b S0 s = true).
-Proof.
-  intros He. split.
-  - apply NoDup_map_inj_in; [|apply NoDup_filter, f1_keys_nodup].
-    intros k1 k2 H1 H2 E. apply filter_In in H1. apply filter_In in H2. destruct H1 as [H1 _]. destruct H2 as [H2 _].
-    unfold cand_tseq in E.
-    destruct (f1_decode_key k1 (f1_keys_of_ok k1 H1)) as [r1 [Hd1 _]].
-    destruct (f1_decode_key k2 (f1_keys_of_ok k2 H2)) as [r2 [Hd2 _]].
-    rewrite Hd1, Hd2 in E. apply (f1_cand_inj k1 k2 r1 r2 H1 H2 Hd1 Hd2 E).
-  - intros s. split.
-    + intros Hin. apply in_map_iff in Hin. destruct Hin as [k [E Hk]]. apply filter_In in Hk. destruct Hk as [Hk Ha].
-      rewrite (key_accepted_spec k Hk) in Ha. rewrite E in Ha. exact Ha.
-    + intros Hv. destruct (f1_accept_complete s He Hv) as (k & cand & Hk & Hd & Ha & E).
-      apply in_map_iff. exists k. split; [unfold cand_tseq; rewrite Hd; exact E|].
-      apply filter_In. split; [exact Hk|]. unfold key_accepted. rewrite Hd. exact Ha.
-Qed.
+Proof. apply (f2_accepted_exact fb H2 f1_enumerates). Qed.
 
 (** without a rejecting constraint every key is accepted *)
 Lemma f1_rejection_free_accepts k : rejection_free fb = true -> In k (keys_of fb) -> key_accepted fb k = true.
-Proof.
-  intros Hrf Hin. rewrite (key_accepted_spec k Hin).
-  pose proof (f1_keys_of_ok k Hin) as Hk. destruct (f1_decode_key k Hk) as [r [Hd Hrow]].
-  unfold cand_tseq. rewrite Hd. rewrite (f0_valid_base fb HF Hq k Hk r Hrow).
-  rewrite (f0_sem_constraints fb HF). apply forallb_forall. intros dc Hdc.
-  apply in_flat_map in Hdc. destruct Hdc as [x [Hx Hdc]].
-  unfold rejection_free in Hrf. rewrite forallb_forall in Hrf. pose proof (Hrf x Hx) as Hk'.
-  destruct x; try discriminate; try (destruct Hdc; fail).
-  destruct Hdc as [E | []]. subst dc.
-  pose proof (f0_constraints fb (f0_unpack fb HF) _ Hx) as Hc. cbn [constraint_f1] in Hc.
-  apply andb_prop in Hc. destruct Hc as [Hf _]. apply Nat.ltb_lt in Hf.
-  unfold constraint_ok, CodeSem.mk_c. cbn [k_kind k_factor k_level].
-  rewrite tseq_nth by exact Hf. rewrite Hrow. apply Nat.eqb_eq.
-  apply (decoded_row_not_excluded fb HF Hq k f l Hk Hf Hx).
-Qed.
+Proof. apply (f2_rejection_free_accepts fb H2). Qed.
 
 Theorem f1_count_exact :
   fl_errors_fail fb = false -> rejection_free fb = true ->
@@ -205,12 +145,8 @@ Theorem f1_count_exact :
   (forall s, In s (map (cand_tseq fb) (keys_of fb)) <-> valid_b S0 s = true) /\
   Z.of_nat (length (map (cand_tseq fb) (keys_of fb))) = possible_keys fb en.
 Proof.
-  intros He Hrf.
-  assert (Hall : accepted_keys fb = keys_of fb).
-  { unfold accepted_keys. apply filter_all. intros k Hk. apply f1_rejection_free_accepts; assumption. }
-  destruct (f1_accepted_exact He) as [Hnd Hiff]. rewrite Hall in Hnd, Hiff.
-  split; [apply (f0_make_enumerator fb HF Hq)|]. split; [exact Hnd|]. split; [exact Hiff|].
-  rewrite map_length. apply f1_keys_count. exact He.
+  intros He Hrf. split; [apply f1_make_enumerator|].
+  apply (f2m_count_exact fb H2 [] [] f1_memos f1_make_enumerator He Hrf).
 Qed.
 
 End F1T.
